@@ -86,6 +86,9 @@ class Event(JSONSerializable):
         self.step: int = 0
         self.isPartiallyProcessed: bool = False
         if from_json_dict is not None:
+            if isinstance(from_json_dict.get("timestamp"), datetime):
+                # Only stored for events kept in the client's error queue
+                self.timestamp = from_json_dict["timestamp"]
             for attr in __jsondataattrs:
                 if attr in from_json_dict:
                     setattr(self, attr, from_json_dict[attr])
@@ -112,6 +115,15 @@ class Event(JSONSerializable):
                 self.objpkey = obj.getPKey()
                 self.objrepr = repr(obj)
             self.objattrs: dict[str, Any] | None = objattrs
+
+    def _get_jsondict(self) -> dict[str, Any]:
+        """Returns the dict to serialize. The timestamp is set by the message bus
+        consumer only: when known, it is kept, as an event stored in the client's
+        error queue still needs it (trashbin retention) once the queue is reloaded"""
+        res = super()._get_jsondict()
+        if self.timestamp != datetime(year=1, month=1, day=1):
+            res["timestamp"] = self.timestamp
+        return res
 
     def __repr__(self) -> str:
         """Returns a printable representation of current Event"""
